@@ -354,10 +354,14 @@ pub fn run(args: &Args) -> Report {
     }
     // ---- constructor guard: ids longer than 65535 bytes are refused
     if only.is_none() && shard == 0 {
-        for len in [65_535usize, 65_536, 65_537, 100_000] {
+        // lengths beyond 32 bits too (the vector is zero pages the constructor never touches); not under the
+        // interpreter or the address sanitizer, where a 4 GiB request is refused or slow
+        let engine = args.engine.as_deref().unwrap_or("native");
+        let huge: &[usize] = if miri || engine == "asan" || engine == "memcheck" || usize::BITS < 64 { &[] } else { &[(1usize << 32) + 5] };
+        for len in [65_535usize, 65_536, 65_537, 100_000, 16_777_216].iter().chain(huge.iter()).copied() {
             rep.eval();
             let key = CoseKeyBuilder::new_ec2_pub_key(iana::EllipticCurve::P_256, vec![1; 32], vec![2; 32]).algorithm(iana::Algorithm::ES256).build();
-            let r = catch(|| AttestedCredentialData::new(Aaguid::new_empty(), vec![7u8; len], key).is_ok());
+            let r = catch(|| AttestedCredentialData::new(Aaguid::new_empty(), vec![0u8; len], key).is_ok());
             let case = json!({"index": 9_000_000 + len as u64, "constructor": "AttestedCredentialData::new", "credential_id_len": len});
             rep.nontrivial(fnv(format!("ctor{len}").as_bytes()));
             match r {
